@@ -452,6 +452,7 @@ class Case:
         self.budget_s = budget_s
         self.nontrivial = nontrivial
         self.int_hi = int_hi
+        self.must_terminate = False  # termination twin: replay a path beyond the unwinding bound with a wall-clock limit
         self.setup = None  # optional callable run in the case's own process before the body (e.g. solver knobs)
 
 
@@ -626,7 +627,7 @@ class Replayer:
             raw = self._read(self.req_r)
             if raw is None:
                 return
-            values, rand, slack = self.pickle.loads(raw)
+            values, rand, slack, limit = self.pickle.loads(raw)
             r, w = os.pipe()
             pid = os.fork()
             if pid == 0:
@@ -643,7 +644,18 @@ class Replayer:
                 finally:
                     os._exit(0)
             os.close(w)
-            data = self._read(r)
+            data = None
+            if limit:
+                import select
+                ready, _, _ = select.select([r], [], [], limit)
+                if not ready:  # the real code did not return within the limit: kill it, report a hang
+                    try:
+                        os.kill(pid, 9)
+                    except OSError:
+                        pass
+                    data = self.pickle.dumps(dict(hang=True))
+            if data is None:
+                data = self._read(r)
             os.close(r)
             try:
                 os.waitpid(pid, 0)
@@ -651,12 +663,14 @@ class Replayer:
                 pass
             self._write(self.res_w, data if data is not None else self.pickle.dumps(dict(harness="replay process died")))
 
-    def replay(self, values, rand, slack):
-        self._write(self.req_w, self.pickle.dumps((values, rand, slack)))
+    def replay(self, values, rand, slack, limit=None):
+        self._write(self.req_w, self.pickle.dumps((values, rand, slack, limit)))
         raw = self._read(self.res_r)
         if raw is None:
             raise RuntimeError("replayer died")
         out = self.pickle.loads(raw)
+        if out.get("hang"):
+            return out
         if "harness" in out:
             raise RuntimeError(out["harness"])
         if out["exc"] is not None:
@@ -677,6 +691,7 @@ class Replayer:
 
 
 _REPLAYER = [None]
+TERMINATION_LIMIT_S = 30
 
 
 def _has_nonfinite(o):
@@ -727,6 +742,7 @@ def _run_case(case, cfg):
     def fn(ctx):
         env = SymEnv(ctx)
         env_box["env"] = env
+        ctx.env = env
         with S.patched_torch():
             o = case.body(env)
             oc = obs_convert(o, True)
@@ -739,6 +755,29 @@ def _run_case(case, cfg):
     rep["leftover"] = leftover
     rep["paths"] = len(results)
     reached = False
+    if getattr(case, "must_terminate", False) and _REPLAYER[0] is not None:
+        # termination twin: a path that exceeded the unwinding bound is replayed once on the real code with inputs on
+        # the grid Z/16 (no degenerate configurations) and the model's draws followed by real random numbers; if the real
+        # code does not return within TERMINATION_LIMIT_S it does not terminate for these inputs
+        for r in results:
+            prem = getattr(r.ctx, "termination_premise", None)  # e.g. "the set to sample from has an interior point"
+            if r.status != "unwound" or getattr(r.ctx, "env", None) is None or prem is None:
+                continue
+            m = _grid_model(r.ctx.hyps(weak=True) + [prem], z3.BoolVal(False), r.ctx, r.ctx.env, qs, timeout_ms=4000)
+            if m is None:
+                continue
+            values, rand = _model_inputs(m, r.ctx.env.inputs), _model_rand(m, r.ctx)
+            try:
+                out = _REPLAYER[0].replay(values, rand, cfg.get("replay_slack", 1e-7), limit=TERMINATION_LIMIT_S)
+            except Exception:
+                break
+            rep["replays"] += 1
+            if out.get("hang"):
+                rep["violations"].append(dict(goal="terminates", inputs=values, rand=[(k, list(sh_), v) for k, sh_, v in rand],
+                                              reproduced=True, case=case.name, family=case.family,
+                                              detail="the real code did not return within %d s for these inputs (a path beyond "
+                                                     "the unwinding bound, replayed)" % TERMINATION_LIMIT_S))
+            break
     for pi, r in enumerate(results):
         rep["path_status"][r.status] = rep["path_status"].get(r.status, 0) + 1
         ctx = r.ctx
@@ -1395,7 +1434,20 @@ def replay_file(path, cases):
     if case is None:
         print("case %s not found" % d["case"])
         return 2
+    if d["goal"] == "terminates":
+        import signal
+
+        def _alarm(*a):
+            print("replay of %s goal terminates\n  the real code did not return within %d s\n  violation reproduced: True" % (d["case"], TERMINATION_LIMIT_S))
+            os._exit(1)
+
+        signal.signal(signal.SIGALRM, _alarm)
+        signal.alarm(TERMINATION_LIMIT_S)
     rp = replay_case(case, d["inputs"], [(k, tuple(s), v) for k, s, v in d["rand"]])
+    if d["goal"] == "terminates":
+        signal.alarm(0)
+        print("replay of %s goal terminates\n  the real code returned\n  violation reproduced: False" % d["case"])
+        return 0
     print("replay of %s goal %s" % (d["case"], d["goal"]))
     print("  inputs:", d["inputs"])
     print("  exception:", repr(rp["exc"]))
